@@ -22,6 +22,7 @@ import Mistletoe.Props.C10_Lists
 import Mistletoe.Props.C19_EndToEnd
 import Mistletoe.Props.C06_Html
 import Mistletoe.Props.C09_Setext
+import Mistletoe.Props.C09_Emph
 import Driver.Ast
 open Lean Mistletoe
 
@@ -354,6 +355,20 @@ def c09Fragment3 (j : Json) : Except String Json := do
       (k == 0 || ((it :: rest).all (fun x => !x.isSetext) && lines.all (fun l => !l.contains '\t')))
     pure (Json.mkObj [("ok", Json.bool ok), ("text", Driver.str (MdRound.qStrs k lines).flatten)])
 
+/-- op "c09.emph": {"blocks": [block | {"k":"emph","s":line text}, …] (non-empty), "depth": k} → the hypotheses of
+    `C09_emphasis_blocks_roundtrip_partial` (`Blk3.ok`, `adjOk3`, tab-free lines when k > 0) and the text it speaks about -/
+def c09Emph (j : Json) : Except String Json := do
+  let bs ← (← Driver.getArr j "blocks").toList.mapM (fun b => do
+    let k ← b.getObjValAs? String "k"
+    if k == "emph" then pure (MdRoundEmph.Blk3.emph (← Driver.getStr b "s")) else pure (MdRoundEmph.Blk3.blk2 (← blk2Of b)))
+  let k := (j.getObjValAs? Nat "depth").toOption.getD 0
+  match bs with
+  | [] => throw "blocks: empty"
+  | it :: rest =>
+    let lines := MdRoundEmph.itemsLines3 it rest
+    let ok := it.ok && rest.all (·.ok) && MdRoundEmph.adjOk3 it rest && (k == 0 || lines.all (fun l => !l.contains '\t'))
+    pure (Json.mkObj [("ok", Json.bool ok), ("text", Driver.str (MdRound.qStrs k lines).flatten)])
+
 def dispatch (op : String) (j : Json) : Except String Json :=
   match op with
   | "c14.hyps" => c14Hyps j
@@ -365,6 +380,7 @@ def dispatch (op : String) (j : Json) : Except String Json :=
   | "c09.fragment" => c09Fragment j
   | "c09.fragment2" => c09Fragment2 j
   | "c09.fragment3" => c09Fragment3 j
+  | "c09.emph" => c09Emph j
   | "c09.lists" => c09Lists j
   | "c19.outline" => c19Outline j
   | "c19.document" => c19Document j
